@@ -2,46 +2,88 @@
 
 package dcmi
 
-// Contracts for the layer decoders (machine-checked by /verif/engine; see
-// /verif/DESIGN.md). A block with only `props` puts the function under the
-// zero-annotation safety sweep of C05 (index/slice/nil/division/termination
-// obligations for every input) and under the generated non-interference
-// obligations of C17.
+// Contracts for the DCMI response decoders (machine-checked by /verif/engine;
+// see /verif/DESIGN.md). DCMI v1.5 rev 1.0: 6.1 (capabilities), 6.5.2 (sensor
+// info), 6.6.1 (power reading). data[0] is the byte after the group extension
+// identification, i.e. response byte 3 of the specification tables.
+
+func bit(b uint8, n uint) bool { return (b>>n)%2 == 1 }
+
+func le16(data []byte, at int) uint16 { return uint16(data[at]) + uint16(data[at+1])*256 }
+func le32(data []byte, at int) uint32 {
+	return uint32(data[at]) + uint32(data[at+1])*256 + uint32(data[at+2])*65536 + uint32(data[at+3])*16777216
+}
 
 // ---- get_dcmi_capabilities_info.go
 
 //@ func (*getDCMICapabilitiesInfoRspHeader).Decode
-//@ props C05 C17
+//@ props C05 C17 C07
+//@ assigns g.MajorVersion, g.MinorVersion, g.Revision
+//@ ensures [C07.caphdr-accept] (result1 == nil) == (len(data) >= 3)
+//@ ensures [C07.caphdr] result1 == nil ==> g.MajorVersion == data[0] && g.MinorVersion == data[1] && g.Revision == data[2] && aliases(result0, data, 3, len(data))
 
 //@ func (*GetDCMICapabilitiesInfoSupportedCapabilitiesRsp).NextLayerType
 //@ props C05
 
 //@ func (*GetDCMICapabilitiesInfoSupportedCapabilitiesRsp).DecodeFromBytes
-//@ props C05 C17
+//@ props C05 C17 C07
+//@ ensures [C07.supcap-accept] (result == nil) == (len(data) >= 6)
+//@ ensures [C07.supcap-hdr] result == nil ==> g.MajorVersion == data[0] && g.MinorVersion == data[1] && g.Revision == data[2]
+//@ ensures [C07.supcap-v10] result == nil && data[0] == 1 && data[1] == 0 ==> g.TemperatureMonitor == bit(data[3], 3) && g.ChassisPower == bit(data[3], 2) && g.SELLogging == bit(data[3], 1) &&
+//@    g.Identification == bit(data[3], 0) && g.VLANCapable == bit(data[5], 5) && g.SOLSupported == bit(data[5], 4) && g.OOBPrimaryLANChannelAvailable == bit(data[5], 3) &&
+//@    g.IBKCSChannelAvailable == bit(data[5], 0) && !g.IBSystemInterfaceChannelAvailable
+//@ ensures [C07.supcap-v11] result == nil && !(data[0] == 1 && data[1] == 0) ==> g.TemperatureMonitor && g.ChassisPower && g.SELLogging && g.Identification && g.VLANCapable && g.SOLSupported &&
+//@    g.OOBPrimaryLANChannelAvailable && g.IBKCSChannelAvailable && g.IBSystemInterfaceChannelAvailable == bit(data[5], 0)
+//@ ensures [C07.supcap-common] result == nil ==> g.PowerManagement == bit(data[4], 0) && g.OOBSecondaryLANChannelAvailable == bit(data[5], 2) && g.SerialTMODEAvailable == bit(data[5], 1)
+//@ ensures [C07.supcap-layer] result == nil ==> aliases(g.Contents, data, 0, 6) && aliases(g.Payload, data, 6, len(data))
 
 //@ func (*GetDCMICapabilitiesInfoMandatoryPlatformAttrsRsp).NextLayerType
 //@ props C05
 
 //@ func (*GetDCMICapabilitiesInfoMandatoryPlatformAttrsRsp).DecodeFromBytes
-//@ props C05 C17
+//@ props C05 C17 C07
+//@ ensures [C07.mandattr-accept] (result == nil) == (len(data) >= 7)
+//@ ensures [C07.mandattr-hdr] result == nil ==> g.MajorVersion == data[0] && g.MinorVersion == data[1] && g.Revision == data[2]
+//@ ensures [C07.mandattr-sel] result == nil ==> g.SELAutoRollover == bit(data[3], 7) && g.SELMaxEntries == uint16(data[3]%16)+uint16(data[4])*256
+//@ ensures [C07.mandattr-v10] result == nil && (len(data) == 7 || (data[0] == 1 && data[1] == 0)) ==> !g.SELFlushOnRollover && !g.SELRecordLevelFlushOnRollover &&
+//@    g.AssetTagSupport == bit(data[5], 2) && g.DHCPHostNameSupport == bit(data[5], 1) && g.GUIDSupport == bit(data[5], 0) &&
+//@    g.BaseboardTemperature == bit(data[6], 2) && g.ProcessorsTemperature == bit(data[6], 1) && g.InletTemperature == bit(data[6], 0) &&
+//@    g.TemperatureSamplingFrequency == 0 && aliases(g.Contents, data, 0, 7) && aliases(g.Payload, data, 7, len(data))
+//@ ensures [C07.mandattr-v11] result == nil && len(data) > 7 && !(data[0] == 1 && data[1] == 0) ==> g.SELFlushOnRollover == bit(data[3], 6) && g.SELRecordLevelFlushOnRollover == bit(data[3], 5) &&
+//@    g.AssetTagSupport && g.DHCPHostNameSupport && g.GUIDSupport && g.BaseboardTemperature && g.ProcessorsTemperature && g.InletTemperature &&
+//@    int64(g.TemperatureSamplingFrequency) == int64(data[7])*1000000000 && aliases(g.Contents, data, 0, 8) && aliases(g.Payload, data, 8, len(data))
 
 //@ func (*GetDCMICapabilitiesInfoOptionalPlatformAttrsRsp).NextLayerType
 //@ props C05
 
 //@ func (*GetDCMICapabilitiesInfoOptionalPlatformAttrsRsp).DecodeFromBytes
-//@ props C05 C17
+//@ props C05 C17 C07
+//@ ensures [C07.optattr-accept] (result == nil) == (len(data) >= 5)
+//@ ensures [C07.optattr] result == nil ==> g.MajorVersion == data[0] && g.MinorVersion == data[1] && g.Revision == data[2] &&
+//@    uint8(g.PowerManagementSlaveAddress) == data[3]/2 && uint8(g.PowerManagementChannel) == data[4]/16 && g.PowerManagementRevision == data[4]%16 &&
+//@    aliases(g.Contents, data, 0, 5) && aliases(g.Payload, data, 5, len(data))
 
 //@ func (*GetDCMICapabilitiesInfoManageabilityAccessAttrsRsp).NextLayerType
 //@ props C05
 
 //@ func (*GetDCMICapabilitiesInfoManageabilityAccessAttrsRsp).DecodeFromBytes
-//@ props C05 C17
+//@ props C05 C17 C07
+//@ ensures [C07.mgmtattr-accept] (result == nil) == (len(data) >= 6)
+//@ ensures [C07.mgmtattr] result == nil ==> g.MajorVersion == data[0] && g.MinorVersion == data[1] && g.Revision == data[2] &&
+//@    uint8(g.PrimaryLANOOBChannel) == data[3] && uint8(g.SecondaryLANOOBChannel) == data[4] && uint8(g.SerialOOBChannel) == data[5] &&
+//@    aliases(g.Contents, data, 0, 6) && aliases(g.Payload, data, 6, len(data))
 
 //@ func (*GetDCMICapabilitiesInfoEnhancedSystemPowerStatisticsAttrsRsp).NextLayerType
 //@ props C05
 
 //@ func (*GetDCMICapabilitiesInfoEnhancedSystemPowerStatisticsAttrsRsp).DecodeFromBytes
-//@ props C05 C17
+//@ props C05 C17 C07
+//@ invariant 0 [powerstats.periods] 0 <= i && i <= periods && len(g.PowerRollingAvgTimePeriods) == periods &&
+//@    forall(qk, 0, i, int64(g.PowerRollingAvgTimePeriods[qk]) == int64(body[1+qk]%64)*specUnitSeconds(body[1+qk]/64)*1000000000)
+//@ ensures [C07.powerstats-accept] (result == nil) == (len(data) >= 4 && len(data) >= 4+int(data[3]))
+//@ ensures [C07.powerstats] result == nil ==> g.MajorVersion == data[0] && g.MinorVersion == data[1] && g.Revision == data[2] && len(g.PowerRollingAvgTimePeriods) == int(data[3]) &&
+//@    forall(qk, 0, int(data[3]), int64(g.PowerRollingAvgTimePeriods[qk]) == int64(data[4+qk]%64)*specUnitSeconds(data[4+qk]/64)*1000000000) &&
+//@    aliases(g.Contents, data, 0, 4+int(data[3])) && aliases(g.Payload, data, 4+int(data[3]), len(data))
 
 // ---- get_dcmi_sensor_info.go
 
@@ -49,9 +91,12 @@ package dcmi
 //@ props C05
 
 //@ func (*GetDCMISensorInfoRsp).DecodeFromBytes
-//@ props C05 C17
-//@ invariant 0 [sensorinfo.a] 0 <= i && i <= recordIDs && len(g.RecordIDs) == i
-//@ invariant 0 [sensorinfo.b] forall(qk, 0, i, g.RecordIDs[qk] == ipmi.RecordID(uint16(data[2+2*qk])|uint16(data[3+2*qk])<<8))
+//@ props C05 C17 C07 C16
+//@ invariant 0 [sensorinfo.ids] 0 <= i && i <= recordIDs && len(g.RecordIDs) == i &&
+//@    forall(qk, 0, i, g.RecordIDs[qk] == ipmi.RecordID(uint16(data[2+2*qk])|uint16(data[3+2*qk])<<8))
+//@ ensures [C07.sensorinfo-accept] (result == nil) == (len(data) >= 2 && len(data) >= 2+2*int(data[1]))
+//@ ensures [C07.sensorinfo] result == nil ==> g.Instances == data[0] && len(g.RecordIDs) == int(data[1]) && forall(qk, 0, int(data[1]), uint16(g.RecordIDs[qk]) == le16(data, 2+2*qk)) &&
+//@    aliases(g.Contents, data, 0, 2+2*int(data[1])) && aliases(g.Payload, data, 2+2*int(data[1]), len(data))
 
 // ---- get_power_reading.go
 
@@ -59,4 +104,7 @@ package dcmi
 //@ props C05
 
 //@ func (*GetPowerReadingRsp).DecodeFromBytes
-//@ props C05 C17
+//@ props C05 C17 C07
+//@ ensures [C07.power-accept] (result == nil) == (len(data) >= 17)
+//@ ensures [C07.power] result == nil ==> g.Instantaneous == le16(data, 0) && g.Min == le16(data, 2) && g.Max == le16(data, 4) && g.Avg == le16(data, 6) &&
+//@    g.Timestamp.Unix() == int64(le32(data, 8)) && int64(g.Period) == int64(le32(data, 12))*1000000 && g.Active == bit(data[16], 6)
